@@ -101,6 +101,8 @@ DER_TABLE = [
 
 
 def strictness(check, repo):
+    value_tables(check, repo)
+    pbes2_structure_rows(check, repo)
     n = 0
     for expr, cases in DER_TABLE:
         src = "def _vstat_der(data):\n    return %s\n" % expr
@@ -176,3 +178,182 @@ def regex_lint(check, repo):
 
 def kdf_gate(check, repo):
     pass
+
+
+def value_tables(check, repo):
+    """Decoders whose result is a value with a boundary in its definition, interpreted on both sides of it."""
+    from ..absval import AObj
+    # ---- OBJECT IDENTIFIER: first octet = 40*X + Y with X in {0, 1, 2}; X = 2 when the value is 80 or more -----------
+    mod, fn = make_snippet(repo, "Crypto.Util.asn1", "def _vstat_oid(data):\n    return DerObjectId().decode(data).value\n")
+    mod2, fn2 = make_snippet(repo, "Crypto.Util.asn1", "def _vstat_oid_enc(value):\n    return DerObjectId(value).encode()\n")
+    wrong = []
+    n = 0
+
+    def first_arcs(v):
+        return (0, v) if v < 40 else ((1, v - 40) if v < 80 else (2, v - 80))
+    for first in (0, 1, 39, 40, 41, 79, 80, 81, 119, 127):
+        for tail, tail_arcs in ((b"\x03", [3]), (b"\x86\x48", [840])):
+            data = bytes([6, 1 + len(tail), first]) + tail
+            want = ".".join(str(a) for a in list(first_arcs(first)) + tail_arcs)
+            it = Interp(repo, max_depth=16, budget=2000000)
+            res = it.run(mod, fn, {"data": data})
+            rets = res.returns()
+            got = rets[0].value if len(rets) == 1 and not res.raises() else "<%s>" % ",".join(res.raise_classes())
+            n += 1
+            if got != want:
+                wrong.append("%s decodes to %r, X.690 8.19.4 gives %s" % (data.hex(), got, want))
+            it = Interp(repo, max_depth=16, budget=2000000)
+            res = it.run(mod2, fn2, {"value": want})
+            rets = res.returns()
+            got = rets[0].value if len(rets) == 1 and not res.raises() else "<%s>" % ",".join(res.raise_classes())
+            n += 1
+            if got != data:
+                wrong.append("%s encodes to %s, expected %s" % (want, got.hex() if isinstance(got, bytes) else got, data.hex()))
+    # large second arc under 2: 2.999 -> 0x88 0x37
+    for data, want in ((bytes.fromhex("0603883703"), "2.999.3"), (bytes.fromhex("06028100"), "2.48"), (bytes.fromhex("0602817f"), "2.175")):
+        it = Interp(repo, max_depth=16, budget=2000000)
+        res = it.run(mod, fn, {"data": data})
+        rets = res.returns()
+        n += 1
+        if want is None:
+            if not res.rejected():
+                wrong.append("%s (non-minimal sub-identifier) is accepted" % data.hex())
+        elif not (len(rets) == 1 and rets[0].value == want):
+            wrong.append("%s decodes to %r, expected %s" % (data.hex(), rets[0].value if rets else res.raise_classes(), want))
+    check.ob("K-pw", "K-pw|der.oid.first_octet", not wrong, mod.path, fn.lineno,
+             extracted="; ".join(wrong[:3]) if wrong else "%d rows: first octets 0..127 around 40 and 80 decode to X.Y with X = 0, 1 (Y < 40) or 2, and the encoder inverts them" % n,
+             expected="X.690 8.19.4: first sub-identifier = 40*X + Y; X = 2 for every value >= 80; decode and encode are inverse")
+    # ---- OpenSSH field readers -----------------------------------------------------------------------------------------
+    OS = "Crypto.PublicKey._openssh"
+    omod = repo.module(OS)
+    wrong = []
+    n = 0
+    for fname in ("read_bytes", "read_string"):
+        f = repo.func(omod, fname)
+        for announced, avail in ((0, 0), (0, 3), (5, 5), (5, 9), (5, 4), (5, 1), (5, 0), (1, 0), (9, 8), (9, 5), (4, 3), (1 << 31, 10)):
+            data = announced.to_bytes(4, "big") + bytes((0x41 + i) & 0x7F for i in range(avail))
+            it = Interp(repo, max_depth=4)
+            res = it.run(omod, f, {"data": data})
+            n += 1
+            if announced <= avail:
+                rets = res.returns()
+                v = rets[0].value if len(rets) == 1 and not res.raises() else None
+                ok = isinstance(v, tuple) and len(v) == 2 and (bytes(v[0], "latin-1") if isinstance(v[0], str) else v[0]) == data[4:4 + announced] \
+                    and v[1] == data[4 + announced:]
+                if not ok:
+                    wrong.append("%s: a %d-byte field followed by %d bytes gives %r" % (fname, announced, avail - announced, v))
+            else:
+                if not res.rejected() or set(res.raise_classes()) - set(["ValueError"]):
+                    wrong.append("%s: a field announcing %d bytes with %d available is %s" % (
+                        fname, announced, avail, "accepted (truncated)" if not res.rejected() else "refused with " + ",".join(res.raise_classes())))
+    f = repo.func(omod, "read_int4")
+    for ln in (0, 1, 3, 4, 7):
+        it = Interp(repo, max_depth=4)
+        res = it.run(omod, f, {"data": bytes(range(1, ln + 1))})
+        n += 1
+        if (ln < 4) != res.rejected():
+            wrong.append("read_int4 on %d bytes is %s" % (ln, "refused" if res.rejected() else "accepted"))
+    check.ob("K-pw", "K-pw|openssh.readers", not wrong, omod.path, repo.func(omod, "read_bytes").lineno,
+             extracted="; ".join(wrong[:3]) if wrong else "%d rows: a length-prefixed field is returned whole or refused with ValueError, never truncated" % n,
+             expected="RFC 4251 5: string = uint32 length || exactly that many bytes; a field longer than the remaining data is an error")
+
+
+def pbes2_structure_rows(check, repo):
+    """PBES2.decrypt on concrete EncryptedPrivateKeyInfo structures (the real ASN.1 decoder interpreted): the four
+    legal shapes of PBKDF2-params and the two of scrypt-params reach the KDF with the right members; a member of the
+    wrong type or a wrong member count raises ValueError (PbesError), never IndexError/TypeError."""
+    from ..spec import der
+    PB = "Crypto.IO._PBES"
+    mod = repo.module(PB)
+    fn = repo.func(mod, "PBES2.decrypt")
+    OID_PBES2, OID_PBKDF2, OID_SCRYPT = "1.2.840.113549.1.5.13", "1.2.840.113549.1.5.12", "1.3.6.1.4.1.11591.4.11"
+    OID_AES128_CBC, OID_HMAC_SHA256 = "2.16.840.1.101.3.4.1.2", "1.2.840.113549.2.9"
+    salt = b"SALTSALT"
+    iv = bytes(range(16))
+    prf = der.seq(der.oid(OID_HMAC_SHA256), der.null())
+    body = bytes(32)
+
+    def blob(kdf_oid, kdf_params):
+        enc_info = der.seq(der.oid(OID_AES128_CBC), der.octets(iv))
+        return der.seq(der.seq(der.oid(OID_PBES2), der.seq(der.seq(der.oid(kdf_oid), kdf_params), enc_info)), der.octets(body))
+    S, C = der.octets(salt), der.integer(2048)
+    cases = [
+        ("PBKDF2 (salt, count)", blob(OID_PBKDF2, der.seq(S, C)), ("pbkdf2", salt, 2048, "sha1")),
+        ("PBKDF2 (salt, count, keyLength)", blob(OID_PBKDF2, der.seq(S, C, der.integer(16))), ("pbkdf2", salt, 2048, "sha1")),
+        ("PBKDF2 (salt, count, prf)", blob(OID_PBKDF2, der.seq(S, C, prf)), ("pbkdf2", salt, 2048, "sha256")),
+        ("PBKDF2 (salt, count, keyLength, prf)", blob(OID_PBKDF2, der.seq(S, C, der.integer(16), prf)), ("pbkdf2", salt, 2048, "sha256")),
+        ("PBKDF2 keyLength that does not match the cipher", blob(OID_PBKDF2, der.seq(S, C, der.integer(24))), "ValueError"),
+        ("PBKDF2 (salt) only", blob(OID_PBKDF2, der.seq(S)), "ValueError"),
+        ("PBKDF2 five members", blob(OID_PBKDF2, der.seq(S, C, der.integer(16), prf, der.null())), "ValueError"),
+        ("PBKDF2 salt not an OCTET STRING", blob(OID_PBKDF2, der.seq(der.integer(5), C)), "ValueError"),
+        ("PBKDF2 count not an INTEGER", blob(OID_PBKDF2, der.seq(S, der.octets(b"\x08\x00"))), "ValueError"),
+        ("PBKDF2 count 0", blob(OID_PBKDF2, der.seq(S, der.integer(0))), "ValueError"),
+        ("PBKDF2 count negative", blob(OID_PBKDF2, der.seq(S, der.integer(-7))), "ValueError"),
+        ("scrypt r not an INTEGER", blob(OID_SCRYPT, der.seq(S, der.integer(16384), der.octets(b"x"), der.integer(1))), "ValueError"),
+        ("scrypt N = 0", blob(OID_SCRYPT, der.seq(S, der.integer(0), der.integer(8), der.integer(1))), "ValueError"),
+        ("scrypt (salt, N, r, p)", blob(OID_SCRYPT, der.seq(S, der.integer(16384), der.integer(8), der.integer(1))), ("scrypt", salt, 16384, (8, 1))),
+        ("scrypt (salt, N, r, p, keyLength)", blob(OID_SCRYPT, der.seq(S, der.integer(16384), der.integer(8), der.integer(1), der.integer(16))), ("scrypt", salt, 16384, (8, 1))),
+        ("scrypt three members", blob(OID_SCRYPT, der.seq(S, der.integer(16384), der.integer(8))), "ValueError"),
+        ("unknown KDF", blob("1.2.3.4", der.seq(S, C)), "ValueError"),
+        ("not PBES2", der.seq(der.seq(der.oid("1.2.3"), der.seq()), der.octets(body)), "ValueError"),
+        ("truncated", blob(OID_PBKDF2, der.seq(S, C))[:-3], "ValueError"),
+    ]
+    wrong = []
+    for what, data, want in cases:
+        seen = {}
+
+        def m_pbkdf2(i, a, kw, st, node, seen=seen):
+            if len(a) > 3 and (not isinstance(a[3], int) or a[3] <= 0):
+                i._diverged = i.do_raise("TypeError", st, node)     # range()/reduce() inside the real PBKDF2
+                return None
+            hm = kw.get("hmac_hash_module")
+            seen["kdf"] = ("pbkdf2", a[1] if len(a) > 1 else None, a[3] if len(a) > 3 else None,
+                           st.heap.get(hm.ident, {}).get("oid") if hasattr(hm, "ident") else None, a[2] if len(a) > 2 else None)
+            return bytes(a[2]) if len(a) > 2 and isinstance(a[2], int) else ABytes(None)
+
+        def m_scrypt(i, a, kw, st, node, seen=seen):
+            if any(not isinstance(x, int) for x in a[3:6]):
+                i._diverged = i.do_raise("TypeError", st, node)
+                return None
+            if any(x <= 0 for x in a[3:6]):
+                i._diverged = i.do_raise("ValueError", st, node)
+                return None
+            seen["kdf"] = ("scrypt", a[1], a[3], (a[4], a[5]), a[2])
+            return bytes(a[2]) if isinstance(a[2], int) else ABytes(None)
+
+        def m_hash_new(i, a, kw, st, node):
+            return i.new_obj(st, label="hash", attrs={"oid": a[0] if a else None})
+
+        def m_cipher_new(i, a, kw, st, node, seen=seen):
+            seen["cipher"] = (a[0] if a else None, kw.get("iv"), kw.get("nonce"))
+            return i.new_obj(st, label="cipher", attrs={"block_size": 16})
+        it = Interp(repo, max_depth=14, budget=4000000,
+                    extra_models={"Crypto.Protocol.KDF.PBKDF2": m_pbkdf2, "Crypto.Protocol.KDF.scrypt": m_scrypt,
+                                  "Crypto.Hash.new": m_hash_new, "Crypto.Cipher.AES.new": m_cipher_new,
+                                  "Crypto.Util.asn1.DerSequence": False, "Crypto.Util.asn1.DerInteger": False,
+                                  "Crypto.Util.asn1.DerObject": False, "Crypto.Util.asn1.BytesIO_EOF": False,
+                                  "Crypto.Util.asn1.DerOctetString": False, "Crypto.Util.asn1.DerObjectId": False},
+                    method_models={"decrypt": lambda i, base, a, kw, st, node: b"plaintext-data.." + bytes([16]) * 16})
+        res = it.run(mod, fn, {"data": data, "passphrase": b"pw"})
+        if want == "ValueError":
+            kill = set(k[1] for k in res.killers if k[0] == "raise") or set(res.raise_classes())
+            bad = [c for c in kill if "ValueError" not in it.exc_mro(c, mod)]
+            if not res.rejected():
+                wrong.append("%s: accepted" % what)
+            elif bad:
+                wrong.append("%s: raises %s" % (what, ",".join(sorted(bad))))
+            continue
+        if res.rejected() or res.raises():
+            wrong.append("%s: %s" % (what, "refused with " + ",".join(res.raise_classes()) if res.rejected() else "may raise " + ",".join(res.raise_classes())))
+            continue
+        k = seen.get("kdf")
+        oid_of = {"sha1": "1.3.14.3.2.26", "sha256": "2.16.840.1.101.3.4.2.1"}
+        if want[0] == "pbkdf2":
+            ok = bool(k) and k[0] == "pbkdf2" and k[1] == want[1] and k[2] == want[2] and k[3] == oid_of[want[3]] and k[4] == 16
+        else:
+            ok = bool(k) and k[0] == "scrypt" and k[1] == want[1] and k[2] == want[2] and k[3] == want[3] and k[4] == 16
+        if not ok or (seen.get("cipher") or (None, None, None))[1] != iv:
+            wrong.append("%s: the KDF / cipher receive %r / %r" % (what, k, seen.get("cipher")))
+    check.ob("K-pw", "K-pw|pbes2.structures", not wrong, mod.path, fn.lineno,
+             extracted="; ".join(wrong[:3]) if wrong else "%d structures: every legal shape of PBKDF2-params / scrypt-params reaches the KDF with salt, count, key length and PRF as encoded; malformed ones raise ValueError" % len(cases),
+             expected="RFC 8018 A.2 / A.4, RFC 7914 7: optional keyLength and prf in any legal combination; a malformed container is a ValueError, never IndexError or TypeError")
